@@ -18,6 +18,7 @@ VALUES = [('red', ['red']), ('1px', ['1px']), ('10px 20px', ['10px', '20px']), (
           ('translate(calc(1px + 2px), 0) scale(2)', ['translate(calc(1px + 2px), 0)', 'scale(2)']), ('a(b(c) d) e', ['a(b(c) d)', 'e']), ('f(g(h(1, 2) 3), 4), 5', ['f(g(h(1, 2) 3), 4)', '5']),
           ('1px\n  2px', ['1px', '2px']), ('a/b', ['a', 'b']), ('x(y) z(w (v)) u', ['x(y)', 'z(w (v))', 'u']),
           ('"a\\\n;b}"', ['"a\\\n;b}"']), ("'x\\\n{ y: z; }'", ["'x\\\n{ y: z; }'"]), ('"x\\";y" attr(t)', ['"x\\";y"', 'attr(t)']),
+          ('variant($bg: darken($c, 5%), $border: $c)', ['variant($bg: darken($c, 5%), $border: $c)']), ('f(a(b), c: d; e)', ['f(a(b), c: d; e)']), ('m((1), x: { y })', ['m((1), x: { y })']),
           ('"it\'s };"', ['"it\'s };"']), ("'say \"}\" {'", ["'say \"}\" {'"]), ('"a\'" \'b"{\'', ['"a\'"', '\'b"{\''])]
 
 
